@@ -60,11 +60,35 @@ def end_of_iteration(ctx, rid, nx):
     raises = [n for n in own_nodes(nx.node) if isinstance(n, ast.Raise) and "StopIteration" in norm(n.exc)]
     ok = bool(raises)
     early = None
+    rd_node = C.stmt_node(ctx, nx, rds[0]) if len(rds) == 1 else None
+
+    def nonempty(x):
+        """the read returned at least one byte"""
+        if isinstance(x, ast.Name) and x.id == SZ:
+            return True
+        if isinstance(x, ast.Compare) and len(x.ops) == 1 and isinstance(x.left, ast.Name) and x.left.id == SZ and isinstance(x.comparators[0], ast.Constant) \
+                and x.comparators[0].value in (0, 1):
+            c, op = x.comparators[0].value, type(x.ops[0])
+            if c == 0:
+                return {ast.Eq: False, ast.NotEq: True, ast.Gt: True, ast.LtE: False, ast.GtE: True, ast.Lt: False}.get(op)
+            return {ast.GtE: True, ast.Lt: False}.get(op)
+        return None
+
+    def another_file(x):
+        """next_file() found another file"""
+        if isinstance(x, ast.Call) and isinstance(x.func, ast.Attribute) and x.func.attr == "next_file":
+            return True
+        return None
     for r in raises:
         rn = C.stmt_node(ctx, nx, r)
-        deps = [(norm(C.test_expr(b)), lab) for b, lab in g.control_deps(rn) if C.test_expr(b) is not None]
-        z = any(t in ("%s == 0" % SZ, "not %s" % SZ) and lab == "true" for t, lab in deps)
-        nfc = any("next_file()" in t and ((t.startswith("not ") and lab == "true") or (not t.startswith("not ") and lab == "false")) for t, lab in deps)
+        if rd_node is not None and rn in g.reachable(rd_node):
+            # within one pass after the read: the raise is out of reach when bytes were read, and when another file exists
+            z = rn not in C.reach_under(g, rd_node, nonempty, stop=[rd_node])
+            nfc = rn not in C.reach_under(g, rd_node, another_file, stop=[rd_node])
+        else:
+            deps = [(norm(C.test_expr(b)), lab) for b, lab in g.control_deps(rn) if C.test_expr(b) is not None]
+            z = any(t in ("%s == 0" % SZ, "not %s" % SZ) and lab == "true" for t, lab in deps)
+            nfc = any("next_file()" in t and ((t.startswith("not ") and lab == "true") or (not t.startswith("not ") and lab == "false")) for t, lab in deps)
         if not (z and nfc):
             # every way of ending the iteration must be the exhaustion of the last file, not a count computed elsewhere
             ok = False
@@ -466,9 +490,24 @@ def v1_hasher(ctx):
     gnf = C.cfg_of(nf)
     ok = len(incs) == 1 and isinstance(incs[0].op, ast.Add) and norm(incs[0].value) == "1" and gnf.dominates(C.stmt_node(ctx, nf, incs[0]), gnf.exit)
     ctx.decide("C01.6", nf, ok, "the file index advances by exactly one per hand-over", "the file index does not advance by exactly one on every hand-over: a file is skipped or read twice", incs[0] if incs else nf.node)
-    opens = [n for n in own_nodes(nf.node) if isinstance(n, ast.Call) and C.is_ext_call(ctx, n, nf, ("builtins.open",))]
-    for o in opens:
-        a = o.args[0]
+    def opened_paths(fn):
+        """[(path expression as written in fn, statement of fn that leads to the open)]: open(...) in fn itself, or in a
+        method of the class that fn calls with the path as argument (an _open(path) helper shared by both call sites)."""
+        out = []
+        for n in own_nodes(fn.node):
+            if isinstance(n, ast.Call) and C.is_ext_call(ctx, n, fn, ("builtins.open",)) and n.args:
+                out.append((n.args[0], n))
+            elif isinstance(n, ast.Call):
+                for h in C.targets_of(ctx, fn, n):
+                    if h is fn or h.cls is None or h.cls not in ctx.prog.mro(cls) + [cls]:
+                        continue
+                    bound = ctx.res.bind_args(h, n, not h.is_static)
+                    for o_ in own_nodes(h.node):
+                        if isinstance(o_, ast.Call) and C.is_ext_call(ctx, o_, h, ("builtins.open",)) and o_.args and isinstance(o_.args[0], ast.Name) \
+                                and o_.args[0].id in bound and isinstance(bound[o_.args[0].id], ast.AST):
+                            out.append((bound[o_.args[0].id], n))
+        return out
+    for a, o in opened_paths(nf):
         if isinstance(a, ast.Name):
             vals = [q for w, q in ctx.res.bindings(nf).get(a.id, []) if w == "value"]
             a = vals[0] if len(vals) == 1 else a
@@ -477,10 +516,13 @@ def v1_hasher(ctx):
         guarded = any(C.test_expr(b) is not None and norm(C.test_expr(b)) == "self.index < len(self.paths)" and lab == "true" for b, lab in gnf.control_deps(on))
         ctx.decide("C01.6", nf, ok and guarded, "hand-over opens paths[index] when index < len(paths)", "hand-over opens %s under a different bound test" % norm(a), o)
     init = cls.methods["__init__"]
-    o0 = [n for n in own_nodes(init.node) if isinstance(n, ast.Call) and C.is_ext_call(ctx, n, init, ("builtins.open",))]
+    o0 = opened_paths(init)
     i0 = [n for n in own_nodes(init.node) if isinstance(n, ast.Assign) and norm(n.targets[0]) == "self.index"]
-    ok = len(o0) == 1 and norm(o0[0].args[0]) == "self.paths[0]" and len(i0) == 1 and norm(i0[0].value) == "0"
-    ctx.decide("C01.6", init, ok, "hashing starts at paths[0] with index 0", "hashing does not start at paths[0] / index 0", o0[0] if o0 else init.node)
+    ok = len(o0) == 1 and norm(o0[0][0]) == "self.paths[0]" and len(i0) == 1 and norm(i0[0].value) == "0"
+    if not o0:
+        ctx.undecided("C01.6", init, "where the first file is opened could not be found (not in the constructor nor in a method it calls with the path)", init.node)
+    else:
+        ctx.decide("C01.6", init, ok, "hashing starts at paths[0] with index 0", "hashing does not start at paths[0] / index 0", o0[0][1])
     pa = [n for n in own_nodes(init.node) if isinstance(n, ast.Assign) and norm(n.targets[0]) == "self.paths"]
     given = init.params[1]
     if len(pa) == 1 and norm(pa[0].value) in (given, "list(%s)" % given, "%s[:]" % given):
@@ -510,7 +552,8 @@ def _attr_alloc(ctx, fn, attr):
             for n in own_nodes(m.node):
                 if isinstance(n, ast.Assign):
                     for t in n.targets:
-                        if isinstance(t, ast.Attribute) and t.attr == attr and isinstance(t.value, ast.Name) and t.value.id == m.self_name:
+                        if isinstance(t, ast.Attribute) and t.attr == attr and isinstance(t.value, ast.Name) and t.value.id == m.self_name \
+                                and not (isinstance(n.value, ast.Constant) and n.value.value is None):      # `self.buf = None` placeholder
                             defs.append((m, n))
     if len(defs) != 1:
         return None
